@@ -22,11 +22,12 @@ logging.disable(logging.CRITICAL)
 
 MODEL = 'tags_tlv'
 COQ = {
-    'C01': dict(gen=[], targets=['Proofs/T2TWrite.vo'], props=['C01_tlv']),
-    'C02': dict(gen=[], targets=['Proofs/T2TCut.vo'], props=['C02_tlv']),
-    'C03': dict(gen=[], targets=['Proofs/T2TFrame.vo'], props=['C03_tlv']),
+    'C01': dict(gen=['TlvK'], targets=['Proofs/T2TWrite.vo', 'Proofs/T1T.vo', 'Bridge/TlvK.vo'], props=['C01_tlv']),
+    'C02': dict(gen=[], targets=['Proofs/T2TCut.vo', 'Proofs/T1T.vo'], props=['C02_tlv']),
+    'C03': dict(gen=[], targets=['Proofs/T2TFrame.vo', 'Proofs/T1T.vo'], props=['C03_tlv']),
 }
-TRUSTED = ['Coq 8.16.1 kernel (vm_compute only in the non-vacuity examples)',
+TRUSTED = ['Coq 8.16.1 kernel (vm_compute only in the non-vacuity examples and refutation witnesses)',
+           'translate/kspec_tags_tlv.py + py2coq.py (kernel translator for get_lock_byte_range / get_rsvd_byte_range / get_capacity of tt1.py, tt2.py)',
            'extraction: ExtrOcamlBasic only; extract/tags_tlv_run.ml driver; OCaml 4.13.1',
            'harness/sim/tag_t1t2.py (simulated Type 1 / Type 2 tags: command set, roll-over READ, one-way lock/OTP bytes, power cut)',
            'harness/parts/tags_tlv.py (layout generator, correspondence, monitors)']
@@ -36,9 +37,21 @@ _A = ['Type 1/2: the on-demand loading of the memory reader (16-byte READ / RALL
       'Type 1/2: a WRITE replaces the addressed unit; one-way (lock/OTP) and read-only bytes are simulator-only - the '
       'theorems show such bytes are always rewritten with their old value, so both semantics agree',
       'Type 2: the readable image of a tag whose size is not a multiple of 16 bytes is completed by roll-over to page 0 '
-      '(as NXP Type 2 tags answer READ); Type 1: static memory 120 bytes, dynamic memory a multiple of 128 bytes']
-ASSUMPTIONS = {'C01': _A, 'C02': _A + ['power cut = the tag executes the first k state-changing commands completely and '
-                                       'nothing afterwards (a WRITE is atomic for its page / block / byte)'], 'C03': _A}
+      '(as NXP Type 2 tags answer READ); Type 1: static memory 120 bytes, dynamic memory a multiple of 128 bytes',
+      'Type 1/2: wf_layout (Coq) is a decidable predicate over the memory, phrased with the model\'s own TLV walk; the '
+      'harness builds layouts independently from a grammar and checks for each that wf_layout holds and that the NDEF TLV '
+      'offset, capacity and room the model sees are the generator\'s; a reserved range that makes the value of a TLV in front '
+      'of the NDEF TLV run into the NDEF TLV\'s length/value bytes is not well-formed (l_hw <= l_off)',
+      'Type 1/2: NXP / Broadcom product classes (NTAG203/213/215/216, Ultralight, Topaz, Topaz-512) are reached through '
+      'nfc.tag.activate and share the generic read/write code; their read-protection / password features are not exercised']
+ASSUMPTIONS = {'C01': _A,
+               'C02': _A + ['power cut = the tag executes the first k state-changing commands completely and nothing '
+                            'afterwards (a WRITE is atomic for its page / block / byte)',
+                            'Type 1: the theorem carries the guard "one length byte, or the three length bytes share a write '
+                            'unit"; the excluded class is the open finding of findings/C02.json (refutation witness in Props/C02_tlv.v)'],
+               'C03': _A + ['Topaz / Topaz-512 format() (tt1_broadcom.py) is modelled as the fixed address writes it performs; it '
+                            'satisfies the frame monitor on factory layouts only - other layouts are the open finding of '
+                            'findings/C03.json (refutation witness in Props/C03_tlv.v); format of blank tags is out of scope (appendix D)']}
 RULE = {
     'C01': 'T1/T2: layouts from a grammar (data-area size, 0-3 control TLVs with reserved ranges before/inside/directly '
            'after/beyond the message and beyond the data area, NULL/unknown TLV padding) x lengths {0,1,253..256,cap-1,cap,'
@@ -132,12 +145,26 @@ class Layout(object):
     def sim(self, mem=None):
         mem = self.mem if mem is None else mem
         if self.kind == 't2':
-            return T2TSim(mem, oneway=self.oneway)
+            return T2TSim(mem, oneway=self.oneway, version=getattr(self, 'version', None))
         return T1TSim(self.hr, mem, oneway=self.oneway)
 
     def describe(self):
-        return {'kind': self.kind, 'off': self.off, 'dend': self.dend, 'size': len(self.mem),
-                'reserved': sorted(self.R)[:40], 'mem': hx(self.mem)}
+        return {'kind': self.kind, 'product': type(activate(FakeClf(self.sim()))).__name__, 'off': self.off, 'dend': self.dend,
+                'size': len(self.mem), 'reserved': sorted(self.R), 'oneway': sorted(self.oneway),
+                'hr': hx(getattr(self, 'hr', b'')), 'version': hx(getattr(self, 'version', None) or b''),
+                'plain': getattr(self, 'version', None) is None, 'capacity': self.cap_expected, 'mem': hx(self.mem)}
+
+    @staticmethod
+    def from_desc(d):
+        L = Layout()
+        L.kind, L.off, L.dend, L.R, L.oneway = d['kind'], d['off'], d['dend'], set(d['reserved']), set(d['oneway'])
+        L.mem, L.cap_expected = bytearray.fromhex(d['mem']), d['capacity']
+        L.first, L.unit = (16, 4) if L.kind == 't2' else (12, 1 if L.kind == 't1s' else 8)
+        if L.kind == 't2':
+            L.version = None if d['plain'] else bytes.fromhex(d['version'])
+        else:
+            L.hr = bytes.fromhex(d['hr'])
+        return L
 
 
 def gen_layout(rng, kind, big=False, want_cap=None, unaligned=False, tight=False):
@@ -155,6 +182,15 @@ def gen_layout(rng, kind, big=False, want_cap=None, unaligned=False, tight=False
             L.dend = 16 + 8 * size8
             tail = 0 if size8 == 6 and rng.random() < 0.7 else 4 * rng.choice([0, 1, 2, 5, 9])
             total = L.dend + tail
+            L.version, uid0 = None, rng.choice([0x01, 0x02, 0x05, 0x07])
+            if rng.random() < 0.3 and not want_cap:
+                # NXP product classes reached through nfc.tag.tt2_nxp.activate (UID0 = 04h)
+                prod = rng.choice([('ul', 6, 64, None), ('ntag203', 0x12, 168, b'\x00'),
+                                   ('ntag213', 0x12, 180, bytes.fromhex('0004040201000F03')),
+                                   ('ntag215', 0x3E, 540, bytes.fromhex('0004040201001103')),
+                                   ('ntag216', 0x6D, 924, bytes.fromhex('0004040201001303'))][:5 if big else 4])
+                _n, size8, total, L.version = prod
+                L.dend, uid0 = 16 + 8 * size8, 0x04
             fixed_R = set()
         elif kind == 't1s':
             L.first, L.unit = 12, 1
@@ -255,7 +291,7 @@ def gen_layout(rng, kind, big=False, want_cap=None, unaligned=False, tight=False
         L.cap_expected = cap
         # ---- management bytes
         if kind == 't2':
-            mem[0:10] = bytes([rng.choice([0x01, 0x02, 0x05, 0x07]), 2, 3, 0x88, 5, 6, 7, 8, 0x0C, 0x48])
+            mem[0:10] = bytes([uid0, 2, 3, 0x88 ^ uid0 ^ 1, 5, 6, 7, 8, 0x0C, 0x48])
             mem[10:12] = b'\x00\x00'
             mem[12:16] = bytes([0xE1, rng.choice([0x10, 0x10, 0x11, 0x12]), size8, 0x00])
         else:
@@ -327,7 +363,14 @@ def run_write(L, data, cut=None):
     sim = L.sim()
     sim.cut_after = cut
     tag = activate(FakeClf(sim))
-    nd = tag.ndef
+    got = {}
+
+    def rd():
+        got['nd'] = tag.ndef
+    res = classify(rd)
+    if res != 'ok':          # reading the tag already fails (possible on malformed layouts only)
+        return dict(res=res, sim=sim, cap=None, ncmd=0)
+    nd = got['nd']
     if nd is None:
         return dict(res='crash NoneAttr', sim=sim, cap=None, ncmd=0)
     cap = nd.capacity
@@ -361,16 +404,16 @@ def monitor_frame(ck, L, sim, what, key, case):
         unit = range(addr, addr + len(req))
         if not any(L.area(a) for a in unit):
             ck.violation('%s:%s:unit-outside' % (L.kind, key), '%s: a write command addresses a unit wholly outside the NDEF area' % what,
-                         dict(case, addr=addr, data=hx(req)))
+                         dict(case, unit_addr=addr, unit_data=hx(req)))
             return False
         for i, a in enumerate(unit):
             if not L.area(a) and req[i] != old[i]:
                 ck.violation('%s:%s:byte-outside' % (L.kind, key), '%s: a byte outside the NDEF area (reserved/lock/beyond the data area) is overwritten' % what,
-                             dict(case, addr=a, old=old[i], new=req[i]))
+                             dict(case, byte_addr=a, byte_old=old[i], byte_new=req[i]))
                 return False
     for a in range(len(L.mem)):
         if sim.mem[a] != L.mem[a] and not L.area(a):
-            ck.violation('%s:%s:mem-outside' % (L.kind, key), '%s: memory outside the NDEF area changed' % what, dict(case, addr=a))
+            ck.violation('%s:%s:mem-outside' % (L.kind, key), '%s: memory outside the NDEF area changed' % what, dict(case, byte_addr=a))
             return False
     return True
 
@@ -383,7 +426,7 @@ def pure(sim):
 # =====================================================================================
 # the checks
 # =====================================================================================
-KINDS = ['t2']
+KINDS = ['t2', 't1s', 't1d']
 MODEL_PREFIX = {'t2': 't2', 't1s': 't1', 't1d': 't1'}
 
 
@@ -476,6 +519,28 @@ def write_case(ck, bt, L, data, pid, rng):
         monitor_frame(ck, L, sim, 'NDEF write', 'write', case)
 
 
+def fuzz_case(ck, bt, L, rng):
+    """correspondence only, on a damaged (in general not well-formed) layout: the model must follow the code
+    through its error paths too (no NDEF, not writeable, read beyond the memory, short control TLV, ...)"""
+    mem = bytearray(L.mem)
+    L.put_message(mem, rnd(rng, rng.randrange(0, L.cap_expected + 1)))
+    for _ in range(rng.choice([1, 1, 2, 4])):
+        a = rng.randrange(8, min(len(mem), L.off + 8))
+        mem[a] = rng.choice([0, 1, 2, 3, 0xFE, 0xFF, 0xE1, 0x10, 0x0F, rng.randrange(256)])
+    L1 = Layout()
+    L1.__dict__.update(L.__dict__)
+    L1.mem = mem
+    data = rnd(rng, rng.choice([0, 1, 5, 40, 254, 255, 300]))
+    ob = run_write(L1, data)
+    sim = ob['sim']
+    fr, fcap, _ = fresh_view(L1, sim.mem)
+    impl = ' | '.join([ob['res'], show_cmds(sim.log), hx(sim.mem), fr, fcap])
+    bt.add('%s_write %s %s' % (MODEL_PREFIX[L.kind], model_args(L1), hexarg(data)), impl, L.kind + '-fuzz-write',
+           {'layout': L1.describe(), 'data': hx(data)}, mask=None if pure(sim) else (lambda s: ' | '.join(s.split(' | ')[:2])))
+    ck.case((L.kind, 'fuzz', hx(mem), hx(data)), ob['res'] != 'ok', None)
+    ck.count('%s-fuzz-%s' % (L.kind, ob['res'].replace(' ', '-')))
+
+
 def format_case(ck, bt, L, wipe):
     case = {'layout': L.describe(), 'wipe': wipe}
     ob = run_format(L, wipe)
@@ -488,16 +553,25 @@ def format_case(ck, bt, L, wipe):
     shares = any((a in L.R) for addr, _o, req, _r in sim.log for a in range(addr, addr + len(req)))
     ck.case((L.kind, 'format', hx(L.mem), wipe), shares, None)
     ck.count('%s-format-%s' % (L.kind, 'wipe' if wipe is not None else 'nowipe'))
-    monitor_frame(ck, L, sim, 'format' + (' with wipe' if wipe is not None else ''), 'format', case)
+    key = 'format'
+    if L.kind != 't2':
+        # Topaz / Topaz-512 product classes: format() re-creates the factory management bytes
+        if L.kind == 't1s':
+            factory = L.off == 12 and bytes(L.mem[8:12]) == b'\xe1\x10\x0e\x00' and L.R == set(range(104, 120))
+        else:
+            factory = bytes(L.mem[8:24]) == bytes.fromhex('e1103f000103f230330203f002030300') and L.R == set(range(104, 128))
+        key = 'vformat:' + ('factory-layout' if factory else 'other-layout')
+    monitor_frame(ck, L, sim, 'format' + (' with wipe' if wipe is not None else ''), key, case)
 
 
-def cut_case(ck, bt, L, old, new, rng, sample_real):
+def cut_case(ck, bt, L, old, new, rng, sample_real, prepared=False):
     """every cut point of one write: correspondence (fresh view per k) + monitor of C02"""
     mem = bytearray(L.mem)
     L2 = Layout()
     L2.__dict__.update(L.__dict__)
     L2.mem = mem
-    L2.put_message(mem, old)
+    if not prepared:
+        L2.put_message(mem, old)
     case = {'layout': L2.describe(), 'old': hx(old), 'new': hx(new)}
     ob = run_write(L2, new)
     log = ob['sim'].log
@@ -516,18 +590,20 @@ def cut_case(ck, bt, L, old, new, rng, sample_real):
             if bytes(obk['sim'].mem) != mems[k]:
                 ck.broken.append('harness: memory after a cut at command %d differs from the command-log prefix' % k)
     views = []
+    reported = False
     for k in range(n + 1):
         fr, _fcap, foct = fresh_view(L2, mems[k])
         views.append(fr)
         ck.case((L.kind, hx(mem), hx(new), k), True,
                 {'tag': L.kind, 'off': L.off, 'old_len': len(old), 'new_len': len(new), 'cut_after': k, 'of': n, 'fresh': fr[:24]} if k == n - 1 else None)
         ok = fr in ('nondef', 'notreadable', 'msg -') or foct == old or foct == new or fr.startswith('failed err')
-        if not ok:
-            ll = 'long' if len(new) >= 255 else 'short'
+        if not ok and not reported:
+            reported = True
+            one_unit = (L.off + 1) // L.unit == (L.off + 3) // L.unit
+            ll = 'short' if len(new) < 255 else 'long-oneunit' if one_unit else 'long-straddle'
             ck.violation('%s:cut:%s:mixture' % (L.kind, ll),
                          'after a power cut a fresh reader sees a %d byte message that is neither the old (%d) nor the new (%d) one' % (len(foct) if foct is not None else -1, len(old), len(new)),
                          dict(case, cut_after=k, commands=n, fresh=fr[:120]))
-            break
     ck.count('%s-cut-writes' % L.kind)
     ck.count('%s-cut-points' % L.kind, n + 1)
     if pure(ob['sim']):
@@ -560,17 +636,67 @@ def corpus(ck, bt, pid, rng):
         format_case(ck, bt, L, 0)
     if pid == 'C01':
         write_case(ck, bt, L, b'\xd0\x00\x00', pid, rng)
+    if 't1d' not in KINDS:
+        return
+    # Type 1, dynamic memory (Topaz-512 management TLVs), empty message
+    L = Layout()
+    L.kind, L.first, L.unit, L.off, L.dend, L.oneway, L.hr = 't1d', 12, 8, 22, 512, set(), bytes([0x12, 0x4C])
+    L.R = set(range(104, 128))
+    L.mem = bytearray(bytes([1, 2, 3, 4, 5, 6, 7, 0, 0xE1, 0x10, 0x3F, 0]) + bytes.fromhex('0103F230330203F002030300') + bytes(488))
+    L.cap_expected = 462
+    if pid == 'C01':
+        write_case(ck, bt, L, b'', pid, rng)
+    # NDEF TLV at byte 22 behind ten NULL TLVs: FF is the last byte of block 2, the length bytes are in block 3
+    L = Layout()
+    L.kind, L.first, L.unit, L.off, L.dend, L.oneway, L.hr = 't1d', 12, 8, 22, 512, set(), bytes([0x12, 0x4C])
+    L.R = set(range(104, 128))
+    L.mem = bytearray(bytes([1, 2, 3, 4, 5, 6, 7, 0, 0xE1, 0x10, 0x3F, 0]) + bytes(10) + bytes([3, 0]) + bytes(488))
+    L.cap_expected = 462
+    if pid == 'C02':
+        cut_case(ck, bt, L, bytes(range(40)), bytes((i % 251) + 1 for i in range(300)), rng, 2)
+    # Topaz-512 with an additional memory control TLV (bytes 200..207 reserved), NDEF TLV at byte 27
+    L = Layout()
+    L.kind, L.first, L.unit, L.off, L.dend, L.oneway, L.hr = 't1d', 12, 8, 27, 512, set(), bytes([0x12, 0x4C])
+    L.R = set(range(104, 128)) | set(range(200, 208))
+    L.mem = bytearray(bytes([1, 2, 3, 4, 5, 6, 7, 0, 0xE1, 0x10, 0x3F, 0]) + bytes.fromhex('0103F230330203F002030203C808040300') + bytes([0xA5] * 483))
+    L.cap_expected = 512 - 27 - 24 - 8 - 4
+    if pid == 'C03':
+        format_case(ck, bt, L, 0)
+        write_case(ck, bt, L, bytes(range(200)), pid, rng)
+
+
+def replay(ck, pid, mr, path):
+    """re-run the case recorded in a replay file written by Check.finish"""
+    import json
+    rec = json.load(open(path))
+    case = rec.get('case') or {}
+    if 'layout' not in case or case['layout'].get('kind') not in MODEL_PREFIX:
+        return False
+    L = Layout.from_desc(case['layout'])
+    bt = Batch(ck, mr)
+    if 'new' in case:
+        # the layout recorded for a cut case already holds the old message
+        cut_case(ck, bt, L, bytes.fromhex(case['old']), bytes.fromhex(case['new']), ck.rng, 2, prepared=True)
+    elif 'data' in case:
+        write_case(ck, bt, L, bytes.fromhex(case['data']), pid, ck.rng)
+    else:
+        format_case(ck, bt, L, case.get('wipe'))
+    bt.flush()
+    return True
 
 
 def run(ck, pid, mr):
     rng = ck.rng
     quick = ck.tier == 'quick'
+    if ck.replay:
+        replay(ck, pid, mr, ck.replay)
+        return
     bt = Batch(ck, mr)
     corpus(ck, bt, pid, rng)
     bt.flush()
     for kind in KINDS:
         if pid in ('C01', 'C03'):
-            nlay = (60 if quick else 700)
+            nlay = (250 if quick else 1500)
             for i in range(nlay):
                 L = gen_layout(rng, kind, big=(i % 12 == 0), tight=(pid == 'C03' and i % 3 == 0),
                                want_cap=(300 if i % 5 == 0 and kind != 't1s' else None))
@@ -585,6 +711,17 @@ def run(ck, pid, mr):
                     L1.__dict__.update(L.__dict__)
                     L1.mem = prev
                     write_case(ck, bt, L1, rnd(rng, n), pid, rng)
+                if pid == 'C03' and kind != 't2' and i % 4 == 1:
+                    # the factory layouts of Topaz (static) / Topaz-512 (dynamic), product header ROM bytes
+                    L.hr = bytes([0x11, 0x48]) if kind == 't1s' else bytes([0x12, 0x4C])
+                    if kind == 't1s':
+                        L.mem[8:14] = bytes.fromhex('e1100e000300')
+                        L.off, L.R, L.oneway = 12, set(range(104, 120)), set()
+                    elif len(L.mem) == 512:
+                        L.mem[8:24] = bytes.fromhex('e1103f000103f230330203f002030300')
+                        L.off, L.R, L.oneway = 22, set(range(104, 128)), set()
+                    f = L.free_after_tag()
+                    L.cap_expected = (f + 1) - (4 if f + 1 > 256 else 2)
                 if pid == 'C03':
                     prev = bytearray(L.mem)
                     L.put_message(prev, rnd(rng, rng.randrange(0, L.cap_expected + 1)))
@@ -595,6 +732,10 @@ def run(ck, pid, mr):
                     format_case(ck, bt, L1, rng.choice([0, 0xFF, rng.randrange(256), 0x1A5]))
                 if i % 20 == 19:
                     bt.flush()
+            if pid == 'C01':
+                for i in range(150 if quick else 2000):
+                    fuzz_case(ck, bt, gen_layout(rng, kind), rng)
+                bt.flush()
             # every length 0..capacity+1 for some layouts (thorough)
             if not quick:
                 for i in range(40):
@@ -604,7 +745,7 @@ def run(ck, pid, mr):
                         write_case(ck, bt, L, rnd(rng, n), pid, rng)
                     bt.flush()
         if pid == 'C02':
-            npairs = 40 if quick else 500
+            npairs = 150 if quick else 800
             grid = [0, 1, 40, 253, 254, 255, 256, 300]
             for i in range(npairs):
                 longish = kind != 't1s' and i % 4 != 3
